@@ -620,6 +620,24 @@ func suiteReplaceSuffixes(env *Env, res *Result) {
 	}
 	for i, o := range outs {
 		if !strings.HasPrefix(o, "ORDER-DEPENDENT") {
+			// the faithful model gives ONE result for every iteration order: the code must not give two
+			if in, ok := rsInputs[i]; ok && len(in[0].(map[string]string)) >= 2 {
+				m := in[0].(map[string]string)
+				content := in[1].(string)
+				seen := map[string]bool{}
+				for k := 0; k < 40 && len(seen) < 2; k++ {
+					o2, _ := parser.VerifReplaceSuffixes(content, m)
+					seen[o2] = true
+				}
+				if len(seen) > 1 {
+					var got []string
+					for k := range seen {
+						got = append(got, k)
+					}
+					sort.Strings(got)
+					res.addFailure(Failure{Kind: "C03", Shape: "c03_suffix_rewrite_nondeterministic", Input: map[string]interface{}{"pairs": m, "content": content}, Detail: fmt.Sprintf("non-interfering pairs (the model gives one result for every iteration order) but repeated calls of replaceSuffixes give %q", got)})
+				}
+			}
 			continue
 		}
 		in, ok := rsInputs[i]
